@@ -7,7 +7,8 @@ PASS_CALLS = re.compile(
     r"Option::<T>::as_mut|Option::<T>::as_ref|IntoIterator::into_iter|Vec::<T, A>::as_slice|"
     r"<.* as std::ops::Deref>::deref|<.* as std::ops::DerefMut>::deref_mut|str::<impl str>::as_bytes|"
     r"String::as_bytes|std::hint::must_use|<.* as std::convert::AsRef<.*>>::as_ref|<.* as std::borrow::Borrow<.*>>::borrow|"
-    r"<.* as std::iter::IntoIterator>::into_iter|slice::<impl \[T\]>::iter|Index::index|<.* as std::ops::Index<.*>>::index)$")
+    r"<.* as std::iter::IntoIterator>::into_iter|slice::<impl \[T\]>::iter|Index::index|<.* as std::ops::Index<.*>>::index|"
+    r"array::<impl std::ops::Index<I> for \[T; N\]>::index)$")
 
 
 def children(t):
